@@ -33,13 +33,17 @@ func init() {
 				"copy QueryLogEnabled and IPLogEnabled from the fields of the same name, and newRequestInfo re-initialises every " +
 				"field of the pooled request information on every path, so a request never inherits the previous request's profile.",
 			NotCovered: "JSON well-formedness of arbitrary field contents (encoding/json trusted); atomicity of O_APPEND writes in the kernel.",
-			Rules: map[string]string{"C15-R24": "DefaultProfile.IsBlocked consults the address rules and the domain rules (table shared with C10-R1): a query the profile's access settings forbid is not answered and logged because its client is in the allowlist", "C15-R23": "the upstream answer is disposed of only after the query has been recorded (shared with C07-R3): the entry's response country is read from this request's answer; the requester's own location is not replaced by the location of its ECS subnet (table shared with C05-R5)", "C15-R22": "profiledb.CreateAutoDevice creates a device only for a known profile that has automatic devices enabled (table shared with C03-R16)", "C15-R21": "hostsRulesToResult names the hosts-file rule of the question's own family (table shared with C02-R4): the logged rule is the one that decided this request; R22: CreateAutoDevice is refused for a profile with automatic devices off (table shared with C03-R16), so no query is attributed to and logged for a profile that did not ask for it", "C15-R20": "the query-log entry and its documentation doc/querylog.md agree: the json tags of querylog.jsonlEntry are exactly the documented property names, the result codes are the documented values of `f`, and the protocol constants are the documented values of `p`", "C15-R18": "a $dnsrewrite verdict is stamped with the ID of the list it came from (composite filter table, shared with C02-R3)", "C15-R19": "newFilteringContext resets every field of the pooled filtering context, so no request is resolved or logged under an earlier request's rewritten name (shared with C01-R15)", "C15-R16": "setFilteredResponse answers by the request verdict whenever there is one, which is also the verdict the log entry names (shared with C02-R6)", "C15-R17": "responseData reports the response's own response code (all bits, extended codes included) and AD flag", "C15-R15": "newDeviceFinder: the real finder exactly when the server group has profiles enabled", "C15-RC": "class rules (error chains, shadowed results, character classes, crossed arguments, pool constructors, array pools, loop completeness, loop-carried buffers, replacing setters, complete clones, Grow arithmetic, pooled-buffer escape, sorted searches, fresh decode targets, per-iteration objects, whole-message copies, codec guards) over the packages this property rests on", "C15-R14": "profile lookups by linked / dedicated IP re-check the device's current address; isBlockedByAccess returns the profile's verdict (shared with C14-R4, C10-R1)", "C15-R13": "no named (non-error) result is hidden by a same-typed short variable declaration and then returned by name outside that scope (typed-AST rule over the whole repository)", "C15-R12": "no whole-struct copy of a dns.Msg (the copy shares Question and the RR slices with the logged request); pool constructors build fresh buffers", "C15-R11": "clone methods of filtering results copy every field (list and rule IDs are what gets logged)", "C15-R1": "recordQueryInfo gates and entry provenance", "C15-R2": "sole callers of log/billing sinks; record only after the write",
+			Rules: map[string]string{"C15-R26": "processDNSRewriteRules reports the rule that decided the outcome (table shared with C02-R4): the rule text in the log entry is the deciding rule's, not that of the first matching rule", "C15-R25": "the name given to the profile's access rule engine is the normalised query name (shared with C10-R4): a query the profile's access settings forbid is not answered and logged because it was sent in upper case", "C15-R24": "DefaultProfile.IsBlocked consults the address rules and the domain rules (table shared with C10-R1): a query the profile's access settings forbid is not answered and logged because its client is in the allowlist", "C15-R23": "the upstream answer is disposed of only after the query has been recorded (shared with C07-R3): the entry's response country is read from this request's answer; the requester's own location is not replaced by the location of its ECS subnet (table shared with C05-R5)", "C15-R22": "profiledb.CreateAutoDevice creates a device only for a known profile that has automatic devices enabled (table shared with C03-R16)", "C15-R21": "hostsRulesToResult names the hosts-file rule of the question's own family (table shared with C02-R4): the logged rule is the one that decided this request; R22: CreateAutoDevice is refused for a profile with automatic devices off (table shared with C03-R16), so no query is attributed to and logged for a profile that did not ask for it", "C15-R20": "the query-log entry and its documentation doc/querylog.md agree: the json tags of querylog.jsonlEntry are exactly the documented property names, the result codes are the documented values of `f`, and the protocol constants are the documented values of `p`", "C15-R18": "a $dnsrewrite verdict is stamped with the ID of the list it came from (composite filter table, shared with C02-R3)", "C15-R19": "newFilteringContext resets every field of the pooled filtering context, so no request is resolved or logged under an earlier request's rewritten name (shared with C01-R15)", "C15-R16": "setFilteredResponse answers by the request verdict whenever there is one, which is also the verdict the log entry names (shared with C02-R6)", "C15-R17": "responseData reports the response's own response code (all bits, extended codes included) and AD flag", "C15-R15": "newDeviceFinder: the real finder exactly when the server group has profiles enabled", "C15-RC": "class rules (error chains, shadowed results, character classes, crossed arguments, pool constructors, array pools, loop completeness, loop-carried buffers, replacing setters, complete clones, Grow arithmetic, pooled-buffer escape, sorted searches, fresh decode targets, per-iteration objects, whole-message copies, codec guards) over the packages this property rests on", "C15-R14": "profile lookups by linked / dedicated IP re-check the device's current address; isBlockedByAccess returns the profile's verdict (shared with C14-R4, C10-R1)", "C15-R13": "no named (non-error) result is hidden by a same-typed short variable declaration and then returned by name outside that scope (typed-AST rule over the whole repository)", "C15-R12": "no whole-struct copy of a dns.Msg (the copy shares Question and the RR slices with the logged request); pool constructors build fresh buffers", "C15-R11": "clone methods of filtering results copy every field (list and rule IDs are what gets logged)", "C15-R1": "recordQueryInfo gates and entry provenance", "C15-R2": "sole callers of log/billing sinks; record only after the write",
 				"C15-R3": "single append write from the pooled buffer", "C15-R4": "result switches exhaustive", "C15-R5": "every field of the entry is written",
 				"C15-R6": "the logging opt-in flags are copied name-to-name by the backend and file-cache conversions; the recycled request-information object (which carries the profile attribution) is fully re-initialised"},
 		}})
 }
 
 func runC15(c *an.Ctx) {
+	c.Floor("C15-R26", 1)
+	c.Borrow("C15-R26", runC02, func(o an.Obligation) bool { return o.Rule == "C02-R4" && strings.Contains(o.Key, "processDNSRewriteRules") })
+	c.Floor("C15-R25", 1)
+	c.Borrow("C15-R25", runC10, func(o an.Obligation) bool { return o.Rule == "C10-R4" })
 	c.Floor("C15-R24", 1)
 	c.Borrow("C15-R24", runC10, func(o an.Obligation) bool { return o.Rule == "C10-R1" })
 	// ---- R23: the logged data is this request's (shared with C07-R3 and C05-R5)
